@@ -60,7 +60,7 @@ func colAlts() []colAlt {
 		{label: "Profiles", typ: "Profiles", declB: "type Profiles []Pos2\n\ntype Pos2 struct {\n\tLabel string\n\tX     int\n}\n"},
 		{label: "Shape", typ: "Shape", declB: tblUnion},
 		{label: "Shapes", typ: "Shapes", declB: tblUnion + "\ntype Shapes []Shape\n"},
-		{label: "Drawing", typ: "Drawing", declB: tblUnion + "\ntype Drawing struct {\n\tMain  Shape\n\tMood  Mood\n\tExtra map[string]Circle\n}\n"},
+		{label: "Drawing", typ: "Drawing", declB: tblUnion + "\ntype Drawing struct {\n\tMain  Shape\n\tMood  Mood\n\tRank  Role\n\tExtra map[string]Circle\n}\n"},
 		{label: "Scene", typ: "Scene", declB: tblUnion + "\ntype Drawable interface {\n\tisDrawable()\n}\n\ntype Text struct {\n\tS string\n}\n\nfunc (Circle) isDrawable() {}\nfunc (Text) isDrawable()   {}\n\ntype Drawables []Drawable\n\ntype Scene struct {\n\tMain  Shape\n\tExtra Drawables\n}\n"},
 		{label: "sql.NullInt64", typ: "sql.NullInt64"},
 		{label: "sql.NullString", typ: "sql.NullString"},
@@ -154,11 +154,20 @@ func TablesWith(c explore.Chooser, defaultCol string) *prog.Program {
 	tableName := s.Pick("name.table", "User", "UserAccount", "U", "HTTPLog", "Log2Entry", "Address", "userData")
 	extraFK := s.Pick("user.extra-fk", "none", "team", "team-unique")
 	teamSlot := s.Pick("team.slot", "none", "same-column")
+	roleForm := s.Pick("role.form", "unexported-tail", "unexported-sentinel", "unexported-duplicate")
+	dirtyFirst := s.Pick("user.unexported-first", "no", "yes")
 	linkCol := s.Pick("link.extra-col", "none", "composite", "array")
 
 	var b, ext strings.Builder
 	b.WriteString("type IdUser int64\n\ntype UserId int64\n\ntype IdTeam int64\n\ntype TeamId int64\n\ntype IdGhost int64\n\n")
-	b.WriteString("type Role uint8\n\nconst (\n\tAdmin Role = iota // administrator\n\tMember\n\tguest\n)\n\n")
+	switch roleForm {
+	case "unexported-tail":
+		b.WriteString("type Role uint8\n\nconst (\n\tAdmin Role = iota // administrator\n\tMember\n\tguest\n)\n\n")
+	case "unexported-sentinel": // exported members are 0,1 (iota-like); the unexported one is far away
+		b.WriteString("type Role uint8\n\nconst (\n\tAdmin Role = iota // administrator\n\tMember\n)\n\nconst guest Role = 100\n\n")
+	case "unexported-duplicate":
+		b.WriteString("type Role uint8\n\nconst (\n\tAdmin Role = iota // administrator\n\tMember\n\tSenior\n)\n\nconst guest = Member\n\n")
+	}
 	b.WriteString("type Mood string\n\nconst (\n\tHappy Mood = \"happy\"\n\tSad   Mood = \"sa d\"\n\tNamed Mood = \"User\" // a value spelled like a table struct\n)\n\n")
 	b.WriteString(col.declB)
 	b.WriteString("\n")
@@ -168,6 +177,9 @@ func TablesWith(c explore.Chooser, defaultCol string) *prog.Program {
 	var uf []string
 	if idName != "absent" {
 		uf = append(uf, fmt.Sprintf("\t%s %s", idName, idType))
+	}
+	if dirtyFirst == "yes" { // an unexported field that is not a guard, declared before the id
+		uf = append([]string{"\tdirty bool"}, uf...)
 	}
 	uf = append(uf, "\tName string", "\tRole Role", "\tMood Mood")
 	uf = append(uf, fmt.Sprintf("\t%s %s %s", colName, col.typ, colTag))
